@@ -89,6 +89,23 @@ def ann_to_type(node, aliases):
     return None
 
 
+def _consts_of(zs):
+    """Uninterpreted constants occurring in the formulas zs."""
+    seen, out, todo = set(), {}, list(zs)
+    while todo:
+        x = todo.pop()
+        if x.get_id() in seen:
+            continue
+        seen.add(x.get_id())
+        if z3.is_quantifier(x):
+            todo.append(x.body())
+        elif z3.is_app(x):
+            if x.num_args() == 0 and x.decl().kind() == z3.Z3_OP_UNINTERPRETED:
+                out[x.get_id()] = x
+            todo.extend(x.children())
+    return list(out.values())
+
+
 class Executor:
     MAX_PATHS = 4000
 
@@ -458,6 +475,15 @@ class Executor:
             c2 = self.guess_tuple(c, st)
             if isinstance(c2, Val):
                 return self.contains(st, c2, x)
+        if isinstance(c, View) and getattr(c, "values_of", None) is not None:
+            d = c.values_of
+            x = self.coerce(x, d.t.v, st)
+            k = fresh("k", d.t.k.sort())
+            return z3.Exists([k], z3.And(z3.Select(self.dom(st, d), k), z3.Select(self.dvals(st, d), k) == x.z))
+        if isinstance(c, View) and c.elt_t is not None:
+            x = self.coerce(x, c.elt_t, st)
+            j = fresh("j", z3.IntSort())
+            return z3.Exists([j], z3.And(0 <= j, j < c.length, self.coerce(c.at(j), c.elt_t, st).z == x.z))
         raise Untranslatable(f"`in` on {c!r}")
 
     def add_key(self, st, c, x):
@@ -1306,6 +1332,8 @@ class Executor:
         i = fresh("q", z3.IntSort())
         s_in = s1.copy()
         s_in.assume(z3.And(0 <= i, i < view.length))
+        n_in = len(s_in.pc)
+        mark = int(str(fresh("mark", z3.BoolSort())).split("!")[-1])
         s2 = bind(i, s_in)
         conds = []
         for c in ifs:
@@ -1315,12 +1343,25 @@ class Executor:
             s2.assume(c)
         body, s3 = self.ev1(e.elt, s2)
         bz = self.truth(body, s3)
-        extra = s3.pc[len(s_in.pc):]
+        extra = [x for x in s3.pc[n_in:] if not any(x.eq(c) for c in conds)]
         guard = z3.And(0 <= i, i < view.length, *conds)
+        # values created while evaluating the element for position i (results of contracted calls, ...) are functions of i:
+        # replace each such constant c by F_c(i); the facts defining them hold for every position (assumed once, outside)
+        if extra:
+            subst = []
+            for c in _consts_of(extra + [bz] + conds):
+                nm = c.decl().name()
+                if "!" in nm and nm.rsplit("!", 1)[1].isdigit() and int(nm.rsplit("!", 1)[1]) > mark:
+                    subst.append((c, z3.Function(nm + "_at", z3.IntSort(), c.sort())(i)))
+            if subst:
+                extra = [z3.substitute(x, *subst) for x in extra]
+                bz = z3.substitute(bz, *subst)
+                guard = z3.substitute(guard, *subst)
+            s1.assume(z3.ForAll([i], z3.Implies(guard, z3.And(*extra))))
         if is_all:
-            z = z3.ForAll([i], z3.Implies(guard, z3.And(*extra, bz) if extra else bz))
+            z = z3.ForAll([i], z3.Implies(guard, bz))
         else:
-            z = z3.Exists([i], z3.And(guard, *extra, bz))
+            z = z3.Exists([i], z3.And(guard, bz))
         st.pc[:] = s1.pc
         st.heap = s1.heap
         return bool_val(z), st
@@ -1444,6 +1485,16 @@ class Executor:
         yield new, s1
 
     def ev_DictComp(self, e, st):
+        try:
+            done = False
+            for r in self.dictcomp_precise(e, st):
+                done = True
+                yield r
+            if done:
+                return
+        except Untranslatable:
+            if not self.lenient:
+                raise
         if not self.lenient:
             raise Untranslatable("dict comprehension")
         # the source is evaluated (calls inside it are seen); the resulting dictionary is not tracked
@@ -1451,6 +1502,126 @@ class Executor:
             for _ in self.ev(g.iter, st):
                 pass
         yield Unknown("dict comprehension"), st
+
+    def dictcomp_precise(self, e, st):
+        """{key: value for ... in source if cond}: a fresh dictionary characterised by quantified axioms.
+
+        * source `D.items()` / `D` with the comprehension's key being D's own key variable: for every k,
+              k in new  <=>  k in D and cond(k),      new[k] == value(k)
+        * otherwise (any single-`for` source, by position i):
+              cond(i)  ==>  key(i) in new;     k in new  ==>  exists i. cond(i) and key(i) == k and new[k] == value(i)
+          (which of several positions with the same key provides the value is left open).
+        Exceptions raised while evaluating key/value/cond for an arbitrary element are forked as usual."""
+        if len(e.generators) != 1:
+            raise Untranslatable("nested dict comprehension")
+        g = e.generators[0]
+        it = g.iter
+        same_key = None
+        if isinstance(it, ast.Call) and isinstance(it.func, ast.Attribute) and it.func.attr == "items" and not it.args \
+                and isinstance(g.target, ast.Tuple) and len(g.target.elts) == 2 \
+                and all(isinstance(x, ast.Name) for x in g.target.elts) \
+                and isinstance(e.key, ast.Name) and e.key.id == g.target.elts[0].id:
+            same_key = it.func.value
+        if same_key is not None:
+            for dv, s1 in self.ev(same_key, st):
+                if not (isinstance(dv, Val) and isinstance(dv.t, Dict)):
+                    raise Untranslatable("dict comprehension over a non-dictionary")
+                b = fresh("dk", dv.t.k.sort())
+                guard0 = z3.Select(self.dom(s1, dv), b)
+                s_in = s1.copy()
+                s_in.assume(guard0)
+                n_in = len(s_in.pc)
+                mark = int(str(fresh("mark", z3.BoolSort())).split("!")[-1])
+                env = dict(s_in.env)
+                s2 = State(env, s_in.heap, s_in.pc, s_in.next_ref, s_in.ghost, s_in.labels)
+                env[g.target.elts[0].id] = Val(dv.t.k, b)
+                env[g.target.elts[1].id] = self.valid_ref(s2, Val(dv.t.v, z3.Select(self.dvals(s2, dv), b)))
+                yield self._dictcomp_finish(e, g, s1, s2, n_in, mark, b, guard0, Val(dv.t.k, b), True)
+            return
+        src, s1 = self.ev1(g.iter, st)
+        if isinstance(g.target, ast.Name) and isinstance(e.key, ast.Name) and e.key.id == g.target.id \
+                and isinstance(src, Val) and isinstance(src.t, (Seq, Set)):
+            # {k: value(k) for k in source if cond(k)}: the key is the element itself -- characterise by key
+            et = src.t.elt if isinstance(src.t, Seq) else src.t.k
+            b = fresh("dk", et.sort())
+            guard0 = self.contains(s1, src, Val(et, b))
+            s_in = s1.copy()
+            s_in.assume(guard0)
+            n_in = len(s_in.pc)
+            mark = int(str(fresh("mark", z3.BoolSort())).split("!")[-1])
+            env = dict(s_in.env)
+            s2 = State(env, s_in.heap, s_in.pc, s_in.next_ref, s_in.ghost, s_in.labels)
+            env[g.target.id] = Val(et, b)
+            yield self._dictcomp_finish(e, g, s1, s2, n_in, mark, b, guard0, Val(et, b), True)
+            return
+        view = self.view_of(self.iter_value(src, s1), s1)
+        b = fresh("di", z3.IntSort())
+        guard0 = z3.And(0 <= b, b < view.length)
+        s_in = s1.copy()
+        s_in.assume(guard0)
+        n_in = len(s_in.pc)
+        mark = int(str(fresh("mark", z3.BoolSort())).split("!")[-1])
+        env = dict(s_in.env)
+        s2 = State(env, s_in.heap, s_in.pc, s_in.next_ref, s_in.ghost, s_in.labels)
+        self.assign_target(g.target, self.vat(view, b, s2), s2)
+        yield self._dictcomp_finish(e, g, s1, s2, n_in, mark, b, guard0, None, False)
+
+    def _dictcomp_finish(self, e, g, s1, s2, n_in, mark, b, guard0, keyval, unique):
+        conds = []
+        for c in g.ifs:
+            cv, s2 = self.ev1(c, s2)
+            cz = self.truth(cv, s2)
+            conds.append(cz)
+            s2.assume(cz)
+        kv, s2 = self.ev1(e.key, s2)
+        vv, s2 = self.ev1(e.value, s2)
+        kv, vv = self.guess_tuple(kv, s2), self.guess_tuple(vv, s2)
+        if isinstance(vv, PyConst) and isinstance(vv.v, int) and not isinstance(vv.v, bool):
+            vv = int_val(vv.v)
+        if isinstance(kv, PyConst) and isinstance(kv.v, str):
+            kv = Val(Str, z3.StringVal(kv.v))
+        if not (isinstance(kv, Val) and isinstance(vv, Val)):
+            raise Untranslatable("dict comprehension with untracked key or value")
+        t = Dict(kv.t, vv.t)
+        want = getattr(self, "expect_type", None)
+        if isinstance(want, Dict) and not want.counter and not want.default:
+            kv, vv, t = self.coerce(kv, want.k, s2), self.coerce(vv, want.v, s2), want
+        extra = [x for x in s2.pc[n_in:] if not any(x.eq(c) for c in conds)]
+        kz, vz = kv.z, vv.z
+        subst = []
+        for c in _consts_of(extra + [kz, vz] + conds):
+            nm = c.decl().name()
+            if "!" in nm and nm.rsplit("!", 1)[1].isdigit() and int(nm.rsplit("!", 1)[1]) > mark:
+                subst.append((c, z3.Function(nm + "_at", b.sort(), c.sort())(b)))
+        if subst:
+            extra = [z3.substitute(x, *subst) for x in extra]
+            conds = [z3.substitute(x, *subst) for x in conds]
+            kz, vz = z3.substitute(kz, *subst), z3.substitute(vz, *subst)
+        guard = z3.And(guard0, *conds)
+        if extra:
+            s1.assume(z3.ForAll([b], z3.Implies(guard, z3.And(*extra))))
+        st = s1
+        r = self.new_ref(st)
+        new = Val(t, r)
+        self.unshared(st, new)
+        domr = fresh("dcdom", z3.ArraySort(t.k.sort(), z3.BoolSort()))
+        valr = fresh("dcval", z3.ArraySort(t.k.sort(), t.v.sort()))
+        card = fresh("dccard", z3.IntSort())
+        k2 = fresh("k", t.k.sort())
+        if unique:
+            st.assume(z3.ForAll([b], z3.Select(domr, b) == guard))
+            st.assume(z3.ForAll([b], z3.Implies(guard, z3.Select(valr, b) == vz)))
+        else:
+            st.assume(z3.ForAll([b], z3.Implies(guard, z3.Select(domr, kz))))
+            st.assume(z3.ForAll([k2], z3.Implies(z3.Select(domr, k2),
+                                                 z3.Exists([b], z3.And(guard, kz == k2, z3.Select(valr, k2) == vz)))))
+        st.assume(card >= 0)
+        kd, kval, kc = ("dom", t.name(), t.k), ("val", t.name(), t.k, t.v), ("card", t.name())
+        self.heap.set(st, kd, z3.Store(self.heap.get(st, kd), r, domr))
+        self.heap.set(st, kval, z3.Store(self.heap.get(st, kval), r, valr))
+        self.heap.set(st, kc, z3.Store(self.heap.get(st, kc), r, card))
+        self.assume_log("A5: a dict comprehension is characterised by its key set and values (which duplicate key wins is open)")
+        return new, st
 
     def comp_value(self, e, st):
         """A comprehension without filter as a lazily indexed View (elementwise function of the source)."""
